@@ -27,7 +27,7 @@ TOKEN_RE = re.compile(r'''
   | (?P<other>.)
 ''', re.X | re.S)
 
-KEYWORDS = ['alias', 'annotation', 'annotation_type', 'attrs', 'by', 'deprecated', 'example', 'extends', 'import',
+KEYWORDS = ['alias', 'annotation', 'annotation_type', 'attrs', 'by', 'deprecated', 'doc', 'error', 'example', 'extends', 'import',
             'namespace', 'patch', 'route', 'struct', 'union', 'union_closed']
 PUNCT = list('(),=?.:[]{}@*')
 
@@ -132,6 +132,12 @@ struct Kid extends Base
         k = "a"
         m = {"x": [1.5, 2]}
 
+    example second
+        "second example"
+        b = 2
+        k = "a"
+        m = {}
+
 union U
     v
         "void doc"
@@ -142,11 +148,20 @@ union U
     example ex
         t = "2000"
 
+    example ex2
+        s = null
+
 union C extends U
     c Bytes
 
 patch struct Kid
     p Boolean = true
+
+    example default
+        p = false
+
+    example second
+        p = true
 
 route r:2(Base, U, Void) deprecated by r
     "route doc :route:`r`"
@@ -261,6 +276,8 @@ def items(tier, repo=None):
             yield 'langref-prefix:%d@%d' % (si, n), [('s.stone', 'namespace example\n\n' + untokenize(toks[:i + 1]) + '\n')]
     for it in docref_items(tier):
         yield it
+    for it in clash_items():
+        yield it
     if tier == 'thorough':
         # pairs of deviations on the small bases
         for bi, text in enumerate(SMALL_BASES):
@@ -314,6 +331,24 @@ def docref_items(tier):
         for tag, v in (('link', 'Title http://x'), ('link', 'x'), ('link', ''), ('link', ' a'), ('link', 'a '), ('val', 'null'), ('val', 'true'), ('val', '1.5'), ('val', '"s"'), ('val', 'nope'), ('val', ''),
                        ('foo', 'x'), ('', 'x'), ('type', '`'), ('TYPE', 'Loc'), ('field', 'x y'), ('type', 'Loc Loc'), ('route', 'rloc rloc')):
             yield 'docref:%s:%s:%s' % (site, tag, v), docref_spec(site, ':%s:`%s`' % (tag, v))
+
+
+# ---------------------------------------------------------------------------
+# name clashes: every ordered pair of definition kinds under one name, in one file and across two files of a namespace
+
+CLASH_KINDS = [('struct', 'struct Dup\n    f Int32\n'), ('union', 'union Dup\n    a\n'), ('alias', 'alias Dup = Int32\n'),
+               ('route', 'route Dup(Void, Void, Void)\n'), ('route2', 'route Dup:2(Void, Void, Void)\n'), ('route3only', 'route Dup:3(Void, Void, Void) deprecated\n'),
+               ('annotation', 'annotation Dup = Deprecated()\n'), ('annotation_type', 'annotation_type Dup\n    "doc"\n'),
+               ('patch', 'patch struct Dup\n    g Int32\n'), ('import', 'import Dup\n'), ('lowercase-route', 'route dup(Void, Void, Void)\n'),
+               ('canonical-variant', 'struct DUP\n    f Int32\n')]
+
+
+def clash_items():
+    for k1, t1 in CLASH_KINDS:
+        for k2, t2 in CLASH_KINDS:
+            yield 'clash:%s+%s:one-file' % (k1, k2), [('c.stone', 'namespace nc\n\n' + t1 + '\n' + t2)]
+            yield 'clash:%s+%s:two-files' % (k1, k2), [('c1.stone', 'namespace nc\n\n' + t1), ('c2.stone', 'namespace nc\n\n' + t2)]
+            yield 'clash:%s+%s:with-namespace-named-alike' % (k1, k2), [('c1.stone', 'namespace Dup\n\n' + t1), ('c2.stone', 'namespace nc\n\nimport Dup\n\n' + t2)]
 
 
 POOL_LABELS = None
